@@ -73,7 +73,7 @@ CHECKS.update({
     'C19': dict(
         technique='TLA+ state machine RegexDiscovery (parsed-class set, MakeComplete actions, Discovered = projection by the union of classes) model-checked over all request orders; TLC-generated abstract files rendered under layout variations, every incremental re-parse validated by Trace_RegexDiscovery',
         text='Abstract files (units, nesting, imports with only/rename lists, typedefs with bindings, interfaces, calls incl. inline-IF and %-calls) are rendered with continuation lines, semicolons, decoy keywords in comments/strings, mixed case; all subsets and many orders (all 5040 in thorough) of parser-class requests are replayed; the FP frontend is a renderer cross-check.',
-        note='Known findings: request order matters for Sourcefile.make_complete, typedefs inside routines, bare END, module merge with internal procedures.'),
+        note='Request histories include repetitions (a class requested before and again after ProgramUnitClass). Known findings: request order matters for Sourcefile.make_complete, typedefs inside routines, bare END, module merge with internal procedures.'),
     'C20': dict(
         technique='TLA+ clause SrcLoc (recorded span and text must be the file text at those lines) evaluated by TLC on (node, lines, text) records from generated programs and repository sources, both frontends',
         text='For every node with a Source (FP, REGEX, and REGEX followed by make_complete(FP)) the recorded line span and string are compared per line with the original file lines.',
@@ -85,7 +85,7 @@ CHECKS.update({
     'C22': dict(
         technique='TLA+ specification SchedProcess (Visit enabled iff selected and predecessors visited; any topological order accepted) model-checked; probe Transformation records real visits, Trace_SchedProcess validates once/only-selected/order/targets',
         text='For the C21 projects a probe transformation with random manifests (item filters, reverse, file graph, process_ignored_items) records every transform_* call with role, mode and targets; TLC checks each selected item exactly once, no other, order consistent with the (reversed) dependency graph, file-graph order, and targets = non-blocked dependencies.',
-        note='Known findings on targets for unqualified imports / free procedures called from module procedures / overridden disable lists.'),
+        note='Pairs of transformations applied in sequence to one scheduler are judged independently (seq=2 keys). Known findings on targets for unqualified imports / free procedures called from module procedures / overridden disable lists.'),
     'C42': dict(
         technique='TLA+ protocol model LintQueue model-checked over all interleavings (<= 4 files, <= 3 workers, parse failures); real parallel lint runs with jittered probe rule/handler recorded and validated by Trace_LintQueue',
         text='Generated file sets (with planted violations and unparsable files) are linted with 1..8 workers under seed-derived delays; per-process sequence numbers and an append-only log give the event order; every log must be a behaviour of the model, every file is checked once and per-file reports/outputs equal the serial run.',
@@ -121,11 +121,11 @@ CHECKS.update({
     'C26': dict(
         technique='Instrumented TLA+ reference machine FMachineLog (read/write/enter/exit event log) + TLA+ judgement DataflowJudge evaluated by TLC on the def/use/live sets recorded from Loki for generated routines x inputs',
         text='For every execution window of every statement node of generated routines (loops incl. zero-trip, conditionals, SELECT CASE, WHERE, associates, calls to helpers with every intent incl. none): writes must be in defines, reads-before-write in uses, values from earlier execution in live. Pre-flight: the instrumented machine agrees with FMachine and with gfortran on the program output.',
-        note='Per array element granularity for kills; DO variables set by their own DO are exempt. Known findings listed in known_findings.json.'),
+        note='Directed strata: DO bounds assigned by the loop body; SELECT CASE branches writing then reading a variable. Per array element granularity for kills; DO variables set by their own DO are exempt. Known findings listed in known_findings.json.'),
     'C27': dict(
         technique='Same instrumented machine; TLC computes the actual loop-carried and read-after-write variables from the event log and checks inclusion in loop_carried_dependencies / read_after_write_vars',
         text='For every loop instance and inspection point of the generated routines the variables actually carried between iterations / written before and read after the point must be reported by the queries (one-directional).',
-        note='Known findings: may-definition kills, element granularity, candidates cleared in zero-trip loops / SELECT / WHERE, associate aliases.'),
+        note='Directed strata: DO bounds assigned by the loop body; SELECT CASE branches writing then reading a variable. Known findings: may-definition kills, element granularity, candidates cleared in zero-trip loops / SELECT / WHERE, associate aliases.'),
     'C35': dict(
         technique='TLA+ reference machine FMachine (Trace_Transpile) predicts the output of the original Fortran; observed = harness-owned Fortran driver calling the gcc-built C kernel through the generated ISO-C wrapper; gfortran pre-flight',
         text='Kernels of the transpilable subset are generated in pools (a clean core pool + one construct per other pool), transpiled with FortranCTransformation + FortranISOCWrapperTransformation, built with gcc/gfortran and run on dyadic inputs; TLC compares with Run(original, input).',
@@ -147,7 +147,7 @@ CHECKS.update({
     'C25': dict(
         technique='TLA+ state machine SchedOps (DependencySuffix, ModuleWrap, Duplicate, Remove, Process; NoDanglingRef, CacheKeysAreCurrentNames, GraphNodesSubsetCache, LaterProcessVisitsSurvivors) model-checked with a negative control; TLC-generated histories replayed on the real Scheduler, projected state validated step by step, written sources compiled and linked',
         text='Histories of <= 3 operations on small projects are replayed with process_transformation; after each step unit names per file, call/import names (from the IR), cache keys and graph nodes are projected and validated by Trace_SchedOps; finally the sources are written and linked with gfortran.',
-        note='Design-level defects found by TLC became preconditions of the model; many known findings (DuplicateKernel cloning whole modules, bystander routines, ModuleWrap).'),
+        note='Trace_SchedIgnore: ignore/block lists follow the renaming of ignored dependencies (inline function references and CALLs). Design-level defects found by TLC became preconditions of the model; many known findings (DuplicateKernel cloning whole modules, bystander routines, ModuleWrap).'),
     'C34': dict(
         technique='TLA+ reference machine FMachine (extended with expression bounds, assumed shape, sequence association and derived-type components) predicts the output of generated call trees; observed = gfortran run of the code after the call-signature transformations (through the Scheduler)',
         text='Call trees with sequence-associated element actuals, duplicated actuals, assumed-shape dummies, derived-type arguments and type-bound calls are transformed by do_resolve_sequence_association, RemoveDuplicateArgs, ExplicitArgumentArrayShapeTransformation, DerivedTypeArgumentsTransformation, TypeboundProcedureCallTransformation and validated by Trace_FMachine.',
